@@ -591,27 +591,70 @@ def world_rule(pid):
     return f
 
 
+def world_rule2(pid):
+    """wd.liq / wd.bkr: the whole liquidation / bankruptcy instruction against the whole-instruction model: an instruction
+    that goes through where the exact evaluation refuses it for a reason this property is about."""
+    LIQ = {
+        "C05": {6068: "of an account whose maintenance health is not negative", 6066: "against a bank in which the account owes nothing",
+                6067: "against a bank in which the account holds a deposit", 6065: "seizing more than the collateral held",
+                6069: "exhausting the liability", 6070: "flipping the repaid debt into a deposit", 6071: "leaving the account positive at maintenance level",
+                6072: "without improving the account's health", 6009: "leaving the LIQUIDATOR initially unhealthy", 6012: "of amount zero",
+                6057: "at a non-positive collateral price", 6058: "at a non-positive debt price"},
+        "C14": {6080: "while the protocol-wide pause is in force", 6016: "touching a paused bank", 6084: "touching a bank killed by bankruptcy"},
+        "C08": {6042: "for a signer not entitled to act for the liquidator", 6103: "for the authority of a frozen liquidator account", 6093: "with an account or bank of another group"},
+        "C10": {6089: "while one of the two accounts is in receivership"},
+        "C11": {6037: "of an account that is inside a flash loan"},
+        "C16": {6047: "mixing staked-collateral and default-class positions"},
+    }
+    BKR = {
+        "C07": {6013: "of an account that is not bankrupt", 6014: "on a balance that is no bad debt", 6042: "by a signer who may not settle bad debt on this bank"},
+        "C14": {6080: "while the protocol-wide pause is in force", 6016: "on a paused bank", 6084: "on a bank killed by bankruptcy"},
+        "C08": {6042: "by a signer who may not settle bad debt on this bank", 6093: "with an account or bank of another group"},
+        "C10": {6085: "of an account in receivership"},
+        "C11": {6037: "of an account inside a flash loan"},
+    }
+    def f(op, impl, model):
+        kind = op.split(" ", 1)[0]
+        if kind not in ("wd.liq", "wd.bkr"):
+            return None
+        table, name = (LIQ, "liquidation") if kind == "wd.liq" else (BKR, "bankruptcy settlement")
+        if impl.startswith("ok") and model.startswith("err"):
+            code = int(model.split()[1])
+            why = table.get(pid, {}).get(code)
+            if why:
+                return f"{pid} a {name} went through {why} (the exact evaluation of the whole instruction answers {code}): {op}"
+            return None
+        i, m = _nums(impl), _nums(model)
+        if i and m and len(i) == len(m) and i != m:
+            if kind == "wd.bkr" and pid in ("C07", "C01", "C02", "C06"):
+                return f"{pid} a {name} leaves books / position / insurance draw that differ from the exact settlement at the accrued share values: {op}"
+            if kind == "wd.liq" and pid in ("C05", "C01", "C02", "C06", "C03"):
+                return f"{pid} a {name} leaves positions / books / insurance fee that differ from the exact accounting (97.5 % / 95 % at the biased prices, accrued share values): {op}"
+        return None
+    return f
+
+
 WITNESS = {
     "C04": [c04_health, emode_dupes("C04"), venue_v4("C04"), world_rule("C04")],
     "C13": [emode_dupes("C13"), emode_leverage("C13"), accepted_invalid_curve("C13")],
     "C18": [accepted_invalid_curve("C18")],
     "C12": [accepted_invalid_curve("C12"), bracket_conditions("C12"), world_rule("C12")],
-    "C05": [c05_health, c05_liq, value_scaling("C05"), c05_conditions, venue_v4("C05")],
-    "C07": [c07_health, c07_soc],
+    "C05": [c05_health, c05_liq, value_scaling("C05"), c05_conditions, venue_v4("C05"), world_rule2("C05")],
+    "C07": [c07_health, c07_soc, world_rule2("C07")],
     "C09": [c09_health, venue_v4("C09")],
-    "C16": [c16_foc, c16_tags, world_rule("C16")],
-    "C03": [ixf_tokens("C03"), tf_mint("C03"), venue_booking("C03"), wrapper_free_value("C03"), world_rule("C03")],
+    "C16": [c16_foc, c16_tags, world_rule("C16"), world_rule2("C16")],
+    "C03": [ixf_tokens("C03"), tf_mint("C03"), venue_booking("C03"), wrapper_free_value("C03"), world_rule("C03"), world_rule2("C03")],
     "C17": [c17_limits, world_rule("C17")],
-    "C06": [c06_accrual, world_rule("C06")],
+    "C06": [c06_accrual, world_rule("C06"), world_rule2("C06")],
     "C19": [c19_emissions, tf_mint("C19")],
-    "C02": [c02_closebank, venue_booking("C02"), wrapper_free_value("C02"), world_rule("C02")],
-    "C11": [c11_health],
-    "C10": [bracket_conditions("C10"), c10_health, world_rule("C10")],
+    "C02": [c02_closebank, venue_booking("C02"), wrapper_free_value("C02"), world_rule("C02"), world_rule2("C02")],
+    "C11": [c11_health, world_rule2("C11")],
+    "C10": [bracket_conditions("C10"), c10_health, world_rule("C10"), world_rule2("C10")],
     "C20": [c20_venue_value, c20_fail_closed, venue_booking("C20"), venue_v4("C20")],
-    "C01": [ixf_tokens("C01"), tf_mint("C01"), venue_booking("C01"), wrapper_free_value("C01"), world_rule("C01")],
+    "C01": [ixf_tokens("C01"), tf_mint("C01"), venue_booking("C01"), wrapper_free_value("C01"), world_rule("C01"), world_rule2("C01")],
 
-    "C08": [world_rule("C08")],
-    "C14": [world_rule("C14")],}
+    "C08": [world_rule("C08"), world_rule2("C08")],
+    "C14": [world_rule("C14"), world_rule2("C14")],}
 
 
 def witnesses(pid, disagreements):
